@@ -24,6 +24,10 @@ import Flax.Proofs.GraphUpdateFrame
 import Flax.Proofs.GraphPop
 import Flax.Proofs.GraphPopOut
 import Flax.Proofs.GraphTotal
+import Flax.Proofs.GraphFirst
+import Flax.Proofs.GraphPopFirst
+import Flax.Proofs.GraphPopAny
+import Flax.Proofs.GraphUpdateValues
 
 namespace Flax.C03
 open Flax.Heap Flax.Graph
@@ -325,6 +329,54 @@ theorem state_once_sorted (h : Heap) (root : PVal) (hw : Heap.wf h = true) (hr :
 /-- `m.w = m.v = Param(5, tag='x')` -/
 def exHeapU : Heap := [.node "A" [(.str "w", .ref 1), (.str "v", .ref 1)], .var ["Param"] 5 [("tag", "s:x")]]
 
+/-! ### "under its first path": the DFS order of `flatten`, made explicit
+
+`trace h root` (Proofs/GraphFirst.lean) repeats the recursion of `flatten` — same budget, same `ref_index`,
+children in sorted-key order — and records every *encounter* `(a, path)` (each time the traversal stands
+on a reference to `a`) and every *registration* (the encounters at which `a` entered `ref_index`). -/
+
+/-- **every Variable leaf of `flatten` (hence of `split` and `state`) sits at the path by which the DFS
+first reached its Variable**: the explicit DFS ends with the same `ref_index`; its registrations are that
+`ref_index` in order; every encounter `(a, q)` is real (`q` resolves to `a`); every registration happened
+at the first encounter of its address; and each Variable leaf `(p, ·)` resolves to a Variable `a` whose
+first encounter is `p`. -/
+theorem flatten_first_path (h : Heap) (root : PVal) (hw : Heap.wf h = true) (hr : root.wf = true)
+    (gd : GDef) (ls : FlatState) (idx : RefIndex) (hf : flatten h root = .ok (gd, ls, idx)) :
+    ∃ enc reg, trace h root = .ok (enc, reg, idx) ∧ reg.map (·.1) = idx ∧
+      (∀ e ∈ enc, resolve h root e.2 = some (.ref e.1)) ∧
+      (∀ e ∈ reg, firstOcc e.1 enc = some e.2) ∧
+      ∀ p ty val md, (p, Leaf.vstate ty val md) ∈ ls →
+        ∃ a, resolve h root p = some (.ref a) ∧ h[a]? = some (.var ty val md) ∧ firstOcc a enc = some p :=
+  flatten_first h root hw hr gd ls idx hf
+
+/-- `nnx.state(node)` lists every Variable under its first path -/
+theorem state_first_path (h : Heap) (root : PVal) (hw : Heap.wf h = true) (hr : root.wf = true)
+    (fs : FlatState) (hs : state h root [] = .ok [fs]) :
+    ∃ enc reg idx, trace h root = .ok (enc, reg, idx) ∧
+      ∀ p ty val md, (p, Leaf.vstate ty val md) ∈ fs →
+        ∃ a, resolve h root p = some (.ref a) ∧ h[a]? = some (.var ty val md) ∧ firstOcc a enc = some p := by
+  unfold state at hs
+  split at hs
+  · cases hs
+  · next gd ls idx hf =>
+    split at hs
+    · cases hs
+    · simp at hs; subst hs
+      obtain ⟨enc, reg, ht, _, _, _, hl⟩ := flatten_first h root hw hr gd ls idx hf
+      exact ⟨enc, reg, idx, ht, hl⟩
+
+/-- the states of `nnx.split` (any filters) list every Variable under its first path -/
+theorem split_first_path (h : Heap) (root : PVal) (hw : Heap.wf h = true) (hr : root.wf = true)
+    (filters : List NFilter) (gd : GDef) (states : List FlatState) (hs : split h root filters = .ok (gd, states)) :
+    ∃ enc reg idx, trace h root = .ok (enc, reg, idx) ∧
+      ∀ st ∈ states, ∀ p ty val md, (p, Leaf.vstate ty val md) ∈ st →
+        ∃ a, resolve h root p = some (.ref a) ∧ h[a]? = some (.var ty val md) ∧ firstOcc a enc = some p := by
+  obtain ⟨ls, idx, hf, hperm, _⟩ := split_states h root filters gd states hs
+  obtain ⟨enc, reg, ht, _, _, _, hl⟩ := flatten_first h root hw hr gd ls idx hf
+  refine ⟨enc, reg, idx, ht, ?_⟩
+  intro st hst p ty val md hm
+  exact hl p ty val md (hperm.mem_iff.mp (List.mem_flatten.mpr ⟨st, hst, hm⟩))
+
 /-- `nnx.state(node, *filters)`: state `i` holds exactly the leaves whose first matching filter is `i`;
 leaves matched by no filter are dropped; each state keeps the sorted emission order -/
 theorem state_filtered (h : Heap) (root : PVal) (filters : List NFilter) (hne : filters ≠ []) (sts : List FlatState)
@@ -377,6 +429,19 @@ theorem update_sets_path (h : Heap) (root : PVal) (p : Path) (a : Addr) (ty : VT
     update h root (chain p (.vstate ty' val' md')) = .ok (write h a (.var ty val' md')) :=
   update_chain h ty' val' md' p root a ty val md hr hg
 
+/-- **`update` with an arbitrary state — last write wins**: every Variable `a` ends up as the result of
+applying, in the order `_graph_update_dynamic` visits them, exactly those leaves of the state whose path
+reaches `a` (several leaves may alias one Variable; a `VariableState` leaf sets value and metadata, a raw
+leaf sets the value only; the class never changes), and is unchanged when no leaf reaches it -/
+theorem update_values (h : Heap) (root : PVal) (s : STree) (h' : Heap) (hu : update h root s = .ok h')
+    (a : Nat) (o : Obj) (ho : h[a]? = some o) (hv : isVarObj o = true) :
+    h'[a]? = some (applyAll o (hits h root a (leavesOf s))) :=
+  updateVal_values s h root h' hu a o ho hv
+
+/-- two leaves aliasing one Variable (`m.w` and `m.v` are the same `Param`): the later one wins -/
+example : (update exHeapU (.ref 0) (.node [(.str "w", .leaf (.vstate ["Param"] 7 [])), (.str "v", .leaf (.arr 9))])).toOption =
+    some [.node "A" [(.str "w", .ref 1), (.str "v", .ref 1)], .var ["Param"] 9 []] := by decide
+
 /-- a Variable addressed by a one-leaf state takes the new value and metadata, in place -/
 example : (update exHeapU (.ref 0) (.node [(.str "w", .leaf (.vstate ["Param"] 7 []))])).toOption =
     some [.node "A" [(.str "w", .ref 1), (.str "v", .ref 1)], .var ["Param"] 7 []] := by decide
@@ -402,6 +467,41 @@ theorem pop_exact (preds : List NFilter) (hPI : PathIndep preds) (h : Heap) (roo
     (hw : Heap.wf h = true) (hrw : root.wf = true) (h' : Heap) (outs : List FlatState)
     (hp : pop true h root preds = .ok (h', outs)) : PopExact preds h root h' outs :=
   pop_exact_aux hPI h root hw hrw h' outs hp
+
+/-- **`pop` returns each Variable — shared or not — under the path by which the DFS of `flatten` first
+reaches it** (the same first path `state` and `split` use) -/
+theorem pop_first_path (preds : List NFilter) (hPI : PathIndep preds) (h : Heap) (root : PVal)
+    (hw : Heap.wf h = true) (hrw : root.wf = true) (h' : Heap) (outs : List FlatState)
+    (hp : pop true h root preds = .ok (h', outs))
+    (gd : GDef) (ls : FlatState) (idx : RefIndex) (hf : flatten h root = .ok (gd, ls, idx)) :
+    ∃ enc reg, trace h root = .ok (enc, reg, idx) ∧
+      ∀ i, ∀ it ∈ outs.getD i [], ∃ b, resolve h root it.1 = some (.ref b) ∧ firstOcc b enc = some it.1 :=
+  Flax.Graph.pop_first_path hPI h root hw hrw h' outs hp gd ls idx hf
+
+/-- **`pop` with arbitrary filters, path-dependent ones (PathContains / PathIn) included** (`PopAny`).
+For such filters "selected" is a property of the *encounter* `(path, Variable)`, not of the Variable:
+the code evaluates the predicates at each encounter inside the attribute loop of a node it visits, pops
+the Variable at the first encounter where some predicate matches — the returned entry carries that path,
+and its state is the first filter matching that `(path, Variable)` pair —, never returns a Variable twice,
+only removes attributes, and every attribute it removes is a reference to a returned Variable.  What is
+*not* true for path-dependent filters (and is not claimed): a reference met *before* the matching
+encounter is kept (`pop_path_filter_keeps_earlier_alias`), so the Variable can stay reachable; a
+reference met *after* it is removed even though no filter matches there (`pop_path_filter_removes_later_alias`). -/
+theorem pop_any_filters (preds : List NFilter) (h : Heap) (root : PVal) (hw : Heap.wf h = true) (hrw : root.wf = true)
+    (h' : Heap) (outs : List FlatState) (hp : pop true h root preds = .ok (h', outs)) : PopAny preds h root h' outs :=
+  pop_any_aux h root hw hrw h' outs hp
+
+/-- `m.a = m.b = v`, `pop(m, PathContains('b'))`: no match at the first encounter `('a',)`, popped at
+`('b',)`; the earlier alias `a` stays -/
+theorem pop_path_filter_keeps_earlier_alias :
+    (pop true [.node "M" [(.str "a", .ref 1), (.str "b", .ref 1)], .var ["Param"] 1 []] (.ref 0) [.pathContains "$b"]).toOption =
+      some ([.node "M" [(.str "a", .ref 1)], .var ["Param"] 1 []], [[([.str "b"], .vstate ["Param"] 1 [])]]) := by decide
+
+/-- `pop(m, PathContains('a'))`: popped at `('a',)`; the later alias `b` is removed too although the
+filter does not match `('b',)` -/
+theorem pop_path_filter_removes_later_alias :
+    (pop true [.node "M" [(.str "a", .ref 1), (.str "b", .ref 1)], .var ["Param"] 1 []] (.ref 0) [.pathContains "$a"]).toOption =
+      some ([.node "M" [], .var ["Param"] 1 []], [[([.str "a"], .vstate ["Param"] 1 [])]]) := by decide
 
 /-- the filters `nnx.pop(m, nnx.Intermediate, nnx.Cache | 'tag')` are of the covered kind -/
 example : PathIndep [.ofType "Intermediate", .any [.ofType "Cache", .withTag "x"], .not (.ofType "Param")] :=
